@@ -228,6 +228,11 @@ class C09(Prop):
                                respawn=rng.choice([True, True, True, False]),
                                kinds=('obedient', 'slow',
                                       'stubborn', 'selfexit'))
+        for wc in cfg['watchers']:
+            if rng.random() < 0.12:
+                # run through a shell: the exit status of the worker is the
+                # exit status all the same (no 128+n reading)
+                wc['opts']['shell'] = True
         n = rng.choice([2, 3, 4, 6, 8, 12]) if tier == 'quick' else \
             rng.choice([2, 3, 5, 8, 12, 20])
         ops = gen.gen_history(rng, cfg, n, self.REQS, self.WEIGHTS)
